@@ -5,6 +5,7 @@ package main
 
 import (
 	"fmt"
+	"github.com/bartossh/Computantis/src/spice"
 	"math/big"
 	"sort"
 
@@ -52,6 +53,9 @@ func ancestorsOf(h [32]byte, parents map[[32]byte][][32]byte) hset {
 	return seen
 }
 
+// zeroSpice: the oracles' own notion of "moves no funds" (not the implementation's Melange.Empty)
+func zeroSpice(m spice.Melange) bool { return m.Currency == 0 && m.SupplementaryCurrency == 0 }
+
 func isGenesisVertex(v *accountant.Vertex) bool {
 	return v.LeftParentHash == [32]byte{} && v.RightParentHash == [32]byte{}
 }
@@ -60,7 +64,7 @@ func isGenesisVertex(v *accountant.Vertex) bool {
 func flow(addr string, vs []*accountant.Vertex) (in, out *big.Int) {
 	in, out = new(big.Int), new(big.Int)
 	for _, v := range vs {
-		if v.Transaction.Spice.Empty() {
+		if zeroSpice(v.Transaction.Spice) {
 			continue
 		}
 		if v.Transaction.ReceiverAddress == addr {
@@ -247,7 +251,7 @@ func (w *World) oracles(n *Node, op string) {
 	for _, h := range newly {
 		n.hadChild[h] = true
 		v, ok := n.everSeen[h]
-		if !ok || op == "load" || isGenesisVertex(&v) || v.Transaction.Spice.Empty() || w.trusted[n.id][v.SignerPublicAddress] {
+		if !ok || op == "load" || isGenesisVertex(&v) || zeroSpice(v.Transaction.Spice) || w.trusted[n.id][v.SignerPublicAddress] {
 			continue
 		}
 		hist := []*accountant.Vertex{}
@@ -337,7 +341,7 @@ func (w *World) overdrawCause(s *accountant.VerifSnap, a string, confirmed []*ac
 	par := parentsByEdges(s)
 	var spends []*accountant.Vertex
 	for _, v := range confirmed {
-		if v.Transaction.IssuerAddress == a && !v.Transaction.Spice.Empty() {
+		if v.Transaction.IssuerAddress == a && !zeroSpice(v.Transaction.Spice) {
 			spends = append(spends, v)
 		}
 	}
